@@ -217,8 +217,10 @@ class AABB:
             pad = Vec(pad)
             if pad.size != self.dim: raise AABB.IncompatibleDimensionError(f"Padding vector has a different dimension ({pad.size}) than bounding box ({self.dim})") 
         pad = np.maximum(pad, 0)
-        self._p1 -= pad
-        self._p2 += pad
+        # rebind instead of updating in place: the corner arrays may be shared with the
+        # caller's arrays or with another box (the constructor does not copy)
+        self._p1 = self._p1 - pad
+        self._p2 = self._p2 + pad
 
     def contains_point(self, pt: Vec) -> bool:
         """Point - bounding box intersection predicate.
